@@ -134,6 +134,17 @@ class ObjModel:
         for c in g.calls():
             if c.path and c.path in self.prog.pdb.bodies and self.is_mutator(c.path) and c.args and self._is_self(c.args[0], me):
                 events.append((rpo.get(c.bb, 0), 10 ** 6, 'call', c))
+            elif c.path and c.args and c.argtys:
+                # a field of self handed out `&mut` (an embedded object retuned through its own setter, a buffer filled by a callee): the
+                # field is modified in place by something this model does not compose
+                for a_, ty_ in zip(c.args, c.argtys):
+                    r_ = a_
+                    while tag(r_) in ('field', 'index', 'deref'):
+                        if tag(r_) == 'field' and r_[1] == me:
+                            break
+                        r_ = r_[1]
+                    if str(ty_).startswith('&mut') and tag(r_) == 'field' and r_[1] == me:
+                        e.undec = e.undec or 'field %s of self is modified in place by %s' % (r_[2], short(c.path))
         events.sort(key=lambda ev: (ev[0], ev[1]))
         e.partial = getattr(e, 'partial', set())
         for ev in events:
